@@ -238,3 +238,12 @@ package stats
 //@                     math.Modf_1(r8pos(pctile, len(s.Xs))) * (s.Xs[int(math.Modf_0(r8pos(pctile, len(s.Xs))))] - s.Xs[int(math.Modf_0(r8pos(pctile, len(s.Xs))))-1]))
 //@   loop 1:
 //@     invariant 0 <= idx() <= rlen()
+
+// hasTies: some group of equal pooled values has more than one member.
+//@ func (d UDist) hasTies() (r bool)
+//@   props C11
+//@   ensures r <==> exists i int :: 0 <= i < len(d.T) && d.T[i] > 1
+//@   loop 1:
+//@     invariant 0 <= idx() <= len(d.T) && unchanged()
+//@     invariant forall i int :: 0 <= i < idx() ==> d.T[i] <= 1
+//@     decreases len(d.T) - idx()
